@@ -15,26 +15,8 @@ CLAIMS = {
          "the ghost table model (entries of a file, block boundaries, index/filter agreement: lmOK) is a precondition here; that flush, compaction and recovery establish it is C09/C01/C02's business and not yet proved; fetch (file read + decode) is a trusted contract backed by C11; library contracts for container/list, strings, strconv, hash.Hash32; sequential semantics under levelManager.mu", "4-C10"),
  "C12": ("Proof of the lock discipline (after one fix: commit): every field of DB, memtable, levelManager, oracle and WAL carries a concurrency classification (guarded_by(lock) / immutable / atomic / lock), and every load and store of such a field in every function of the engine and wal packages - contracted or not - is an obligation: the guarding lock of that object is in the activation's ghost lockset in the right mode (read for loads, write for stores), or the object was allocated by this activation and is not shared yet. Reachability: an object that has no lock of its own (a container/list and its elements, a skiplist, a slice, a map) obtained from a guarded field may be used - called, indexed, dereferenced, ranged over - only while that field's lock is still held (taint from the guarded load through locals, conversions and results of calls on it). Also: no lock is taken twice by one activation, every Unlock matches a held lock, locks are balanced at exit, callees documented as 'call with lock' are called with it. An unclassified field of a shared type fails the run.",
          "decided: guarded-field discipline + lock balance, for all functions of package originium and wal, unbounded (no schedule executed). NOT decided by this check: panic freedom of the whole engine (covered per function in the other properties' obligations only where a function is under contract), pooled-buffer ownership (C11), and that the discipline implies data-race freedom (assumed: Go memory model DRF-SC; sync primitives correct). Txn objects are confined to one goroutine; struct values copied out of a protected object (tableHandle, filter) are not tracked. Uncontracted callees are abstracted by a static write-set analysis (dynamic calls assumed to store only through their arguments).", "4-C12"),
- "C11": ("Partial proof, parts named: (1) ownership, for all inputs: Data/Index/Footer/Meta.Encode and table.Build return a fresh allocation of the call (arrid(result) >= alloc at entry), never a slice of a pooled buffer, and leave every buffer that was in the pool at entry with unchanged content (ghost BufOwned/BufC/BufStore; one fix: commit made this true). (2) Footer and Meta: Encode produces exactly the little-endian token string of the fields and Decode of exactly that string returns the fields (round trip as a lemma over the two contracts), wrong magic and short input give an error and leave the receiver unchanged. (3) the 16-bit length fields: every narrowing conversion in Data.Encode and Index.Encode is an obligation (value fits); those for key/value/suffix lengths >= 65536 fail and are listed known findings (D11, demonstrated against the real code in findings/table/zz_d11_test.go). (4) ErrorWriter.Write / ErrorReader.Read glue and utils.LCP (longest common prefix, for all strings).",
-         "NOT yet under contract (no obligation generated, so a change there is not detected by this check): byte content of data and index blocks versus the entry list (Data/Index Encode-Decode round trip), Data/Index.Decode, wal.Write/Read and the thrift record codec, s2 compression (utils.Compress/Decompress trusted as inverse functions). 'whatever other goroutines encode concurrently' is decided as ownership: the result is unreachable from the pool, so no other activation can write it (sync.Pool trusted).", "4-C11"),
- "C13": ("Proof on the consumer loop `process` (the only writer of doneUntil), for every sequence of consumed marks (the received mark is unconstrained at every iteration: any arrival order, repeated indices, Done without Begin, any number in flight), with ghost books of the consumed history (begun-minus-finished PB, first-seen, value of doneUntil when an index became open) and loop invariants for all four loops: (monotone) every Store writes a strictly larger value; (safety) an index that is open in the books never has doneUntil >= it unless doneUntil has not moved since it became open; (catch-up) after every iteration the heap is empty or its minimum is unfinished, every consumed index that is no longer pending is <= doneUntil, hence doneUntil >= t once every begun index up to t is finished - as a state predicate that holds as soon as the marks have been consumed; (waiters) a waiter channel is closed only when doneUntil >= its index, every registered waiter whose index is <= doneUntil is closed before the next mark is taken, no channel is closed twice or when nil, a waiter above the mark stays registered. lowHeap.Len/Less/Swap/Push/Pop meet the heap.Interface contracts. The exact-books invariant fails for a Done consumed before its Begin: known finding D15 (demonstrated on the real type).",
-         "trusted: container/heap over a correct heap.Interface returns the minimum (library contract heap.*[*watermark.lowHeap]); sync/atomic sequentially consistent, doneUntil single-writer; channel FIFO: consumption order = send order; the client methods Begin/Done/WaitForMark (channel sends, select) are trusted contracts whose link to the loop invariant is FIFO delivery - a change inside Begin/Done/WaitForMark is not detected by this check; every waiter request carries a channel of its own (assumption listed in evidence); scheduling fairness ('without further calls' = once the buffered marks are consumed); sequential semantics between blocking operations", "4-C13"),
- "C09": ("Partial proof, at the level of the entry lists compaction works on: (1) kway.merge (the k-way heap merge used by compactL0/compactLN through MergeVersions) returns, for every versioned key of the inputs, exactly one input entry with that key - the one of the newest input list - tombstones included (after one fix: commit), strictly sorted by CompareKeys, nothing invented; Heap.Len/Less/Swap/Push/Pop meet the heap.Interface contracts. (2) discardStaleEntries with watermark low keeps every version above low and, per user key, the newest version at or below low (a tombstone counts as a version), keeps nothing that was not an input, returns the list sorted; with low == 0 it returns the input. So a lookup at any read timestamp >= low finds the same newest version <= ts before and after. (3) discardAtOrBelow returns a value <= the read timestamp of every open reader (watermark client contract, C13). All for every list length, version pattern, tombstone pattern and keys with bytes below '@'.",
-         "NOT decided by this check (no obligation generated; a change there is not detected): which tables compactL0/compactLN/overlapL0/overlapLN/boundary select (D5: boundary compares raw strings - open, not demonstrated here), that the merged list is written, re-read and installed in place of the inputs (table.Build/C11, file order D6 - C03/C14), cascaded compaction, handles rebuilt by recovery. Trusted: container/heap, slices.SortFunc (permutation + sorted), watermark client contracts, sequential semantics under levelManager.mu", "4-C09"),
- "C15": ("Proof of a sufficient condition for deadlock freedom, not of the time bound: every blocking operation of every function of the engine, wal and watermark packages (Lock/RLock, channel send/receive, blocking select, WaitGroup.Wait, WaitForMark - also those reached through callees, by a transitive summary over static calls) is an obligation: its declared wait level is strictly above the level of every lock the activation holds at that point (ghost lockset of C12) and of every wait object the activation serves (run serves the senders on flushC/closeC and the receiver of closed; Commit and the watermark consumer serve WaitForMark). With levels wait:mark < oracle.writeLock < oracle.Mutex < flushC/closeC/closed < DB.mu < levelManager.mu < memtable.mu < WAL.mu < markC the waits-for graph is acyclic for every queue length (including 0) and every schedule: e.g. 'no lock the flusher needs is held while sending on flushC', 'readTs waits for commits while holding nothing'. An undeclared blocking operation fails the run.",
-         "NOT decided: 'within bounded time' (liveness; needs a fair scheduler, terminating file-system calls and loop termination - no decreases clauses are checked here); the Close handshake credit - that somebody still receives from flushC after run left its loop (D14: a Commit racing Close can be stranded; no obligation of this check expresses it, so it is neither proved nor reported); that the directory can be reopened with the complete state (C02). Levels are per type and field, not per object; interface calls (logger, hash) are assumed not to block on engine objects; sync, channels and the scheduler trusted.", "4-C15"),
- "C17": ("Proof for New, Reset, Set, Get, LowerBound, Scan, All, Size and randomLevel against a representation invariant over keys only (nodes / links / exact / distinct: every forward pointer leads to a member with a strictly larger key and enough levels; level 0 skips no member; two members never compare equal; each node owns its pointer array) and an abstract view SLMem (the set of nodes): New/Reset give the empty map; Set leaves a member whose key compares equal to the given key with the given value and tombstone flag - the existing member (key and version kept, nothing else touched) or one new member carrying the whole entry - and every other member untouched, nothing else added, for every tower height randomLevel can return (1..maxLevel, proved) and every maxLevel >= 1; Get returns the member comparing equal or reports none exists; LowerBound returns the least member >= key or reports that all are smaller; Scan returns exactly the members in [start,end) and All exactly all members, each once, strictly ascending by CompareKeys (key ascending, version descending). The insertion loop is proved level by level (the invariant is parametrised by the level reached; level 0 restores `exact`).",
-         "NOT decided: Delete (not under contract: unused by the engine, needs the all-level form of `exact`), so sequences containing Delete are outside the claim; the probability distribution of tower heights (p is irrelevant to the results); s.size arithmetic. Trusted: math/rand results unconstrained (library contract), CompareKeys through its proved contract (cmp), sequential semantics (memtable.mu held by the caller: C12).", "4-C17"),
- "C14": ("Proof of the property's second formulation - nothing is acknowledged, and no file is deleted or relied upon, before the data that replaces it has been synced - function by function over a ghost file system (per path: exists, bytes written, length covered by fsync; library contracts for os.OpenFile/Write/Sync/Remove/Close and binary.Write into a file): WAL.Write returns nil only when the file content is the old content followed by the prepared records and the sync covers all of it, and changes no other file; memtable.set returns only after that; flushToL0 returns nil only when the table file exists, holds exactly the bytes handed to Write and is fully synced; flushImmutable deletes the wal only after that; memtable.recover deletes an old wal only after every entry read from it was appended to the new wal and synced; compactL0/compactLN remove an input table only after the merged table is created, completely written and synced (this failed on the pinned code - D6 - and holds after one fix: commit); WAL.Delete/close change nothing else.",
-         "NOT decided: that Open succeeds on a torn wal tail or a partly written table (D12 suspected: WAL.Read returns an error on a short last record and recover panics - no contract of this check covers Read/recover decoding, so it is neither proved nor reported); that the bytes decode back to the entries (C11 wal/table content); record-level statement 'every acknowledged commit is visible after recovery' (needs the recovery function as a spec function - not built). Thin contracts: in flushToL0, flushImmutable, memtable.set/all/recover, compactL0/LN only the ordering clauses, frames and the preconditions of os/wal calls are checked; the other obligations of those bodies are generated and not checked (counted in the evidence notes). Trusted: the OS behaves like the ghost file system, directory operations ordered and durable, writes are appends (Seek not modelled), wal.Open/Read/ParseVersion/CompareVersion/Version contracts, utils.TMarshal.", "4-C14"),
- "C03": ("Partial proof under the process-crash model (every completed file-system operation persists): the same ordering obligations as C14, read without the sync clause - at every point between two file operations the data of an acknowledged write is in a wal file or a table file that still exists: a record is in the wal before set returns; a wal is removed only after its table is complete (flushImmutable) or its entries are re-logged (recover); an input table is removed only after the merged table is complete (compactL0/LN, after the fix: of D6, which was a genuine loss of acknowledged data demonstrated in findings/zz_d6_test.go).",
-         "NOT decided: that Open succeeds after a crash at every point and what exactly it restores (recovery function not specified); crash during recovery; 'no value that was never written is visible'; transactions in flight (that is C04). Same thin contracts and trusted base as C14.", "4-C03"),
- "C04": ("Decided by one obligation, which fails and is a listed known finding: inside one Commit no second durable log append may happen (`CommitWrites == 0` before each rawset; each rawset is one wal append + fsync by the proved contracts of memtable.set and WAL.Write). On the pinned code Commit appends once per key and the log has no transaction boundary, so the obligation fails in the loop: D13, demonstrated against the real engine (findings/zz_d13_test.go). The check prints KNOWN-FINDING and stays quiet otherwise; a different violation (e.g. a further append outside the loop) is a new obligation name and is reported.",
-         "the positive half (if there is a single append, recovery restores all or nothing) is not proved: recovery is not under contract. Trusted base as C14.", "4-C04"),
- "C05": ("Partial proof, per call, over the abstract store View (the set of versioned entries the engine holds) and the ghost commit history: (1) Txn.Get returns the transaction's own buffered Set/Delete if there is one, otherwise exactly the entry of the key with the largest version <= readTs in View (not-found for a tombstone or no such version) - never anything else; (2) Begin/readTs fix readTs = nextTs - 1, register the reader with the read mark before anything else can move it, and return only after the commit mark has reached readTs, i.e. after every commit with a timestamp <= readTs has applied all of its writes (so no part of a multi-key commit is seen in part); (3) newCommitTs hands out strictly increasing timestamps, all above every read timestamp issued so far; (4) Commit - whatever it returns - leaves the part of View below its commit timestamp untouched: no entry appears, disappears or changes there (snapshot stability), and what it adds are exactly its pending writes stamped with that timestamp; (5) version discard keeps, per key, the newest version at or below the discard mark and everything above it, and the discard mark never exceeds the read timestamp of an open reader (discardAtOrBelow, C09, C13). Together: what a transaction reads is View restricted to versions <= readTs, a prefix of the commit order, fixed for its lifetime.",
-         "NOT decided: that memtable rotation, flush and compaction keep View equal to what memtable + immutables + tables hold (DB.search and DB.rawset are trusted contracts over View: the C01 chain); the interleaving of critical sections (each call is verified with sequential semantics under its lock; the argument that the combination is a snapshot is the composition of the clauses above, written here, not machine-checked as a history-level lemma); the watermark client contracts are trusted (C13 proves the consumer loop).", "4-C05"),
- "C01": ("Partial proof - the read path. A store invariant dbInv ties the abstract store View (the set of versioned entries the transaction layer reasons about) to the real data structures: every store is well formed (skiplist invariant of C17 for the active and each immutable memtable, table model of C10 for the levels), every entry of every store is in View with that very entry, every entry of View is in some store (ghost witnesses), View keys are canonical, and for one user key a newer store never holds a smaller version than an older one. Under dbInv, DB.search is proved (no longer trusted): the first hit in the order active memtable, immutable memtables newest first, tables - each found by a lower-bound lookup of key@ts - is exactly the entry of the key with the largest version <= ts in View, and a miss everywhere means View holds no version of the key <= ts; a tombstone reads as not-found. memtable.lowerBound, types.Value/IsSameKey/ParseKey/KeyWithTs and the versioned-key lemmas are proved; the table side is C10 (searchLowerBound, the statement itself) and the memtable side C17 (LowerBound). With Txn.Get (C05) and Commit (C07/C08: what a commit adds to View) this gives: a Get returns the value of the most recent committed write at or below its read timestamp, not-found after a Delete or when never written.",
-         "NOT decided: that dbInv is re-established by the write path and the background work - DB.rawset (memtable set, rotation into the immutable list) is still a *trusted* contract over View, and flush (immutable -> L0 table), compaction (C09 proves merge and version discard on entry lists, not the table replacement) and recovery are not shown to preserve dbInv (they would need the block content round trip of C11 and table.Build's functional contract). So 'no matter how many rotations, flushes and compactions ran' is decided only as far as: if dbInv holds at the read, the read is right. A change inside rawset, flushToL0, compaction glue or recover that breaks dbInv is not detected by this check.", "4-C01"),
+ "C11": ("Partial proof, parts named: (1) ownership, for all inputs: Data/Index/Footer/Meta.Encode and table.Build return a fresh allocation of the call, never a slice of a pooled buffer, and leave every buffer that was in the pool at entry with unchanged content (ghost BufOwned/BufC/BufStore; one fix: commit made this true). (2) Footer and Meta: Encode produces exactly the little-endian token string of the fields and Decode of exactly that string returns the fields; wrong magic and short input give an error and leave the receiver unchanged. (3) Data blocks, record by record: each iteration of Data.Encode appends exactly le16(lcp) le16(len(key)-lcp) key[lcp:] le16(len(value)) value le8(tombstone) le64(version) for the current entry (asserts after each of the seven writes), lcp being a common-prefix length of the key and the previous entry's key, and the result is the s2 compression of the concatenation; each iteration of Data.Decode, if the input at its start position holds that record of some entry (field by field, lengths below 65536), consumes exactly the record and appends an entry with that value, tombstone flag and version whose key is prevKey[:lcp] followed by the stored suffix - hence the original key when prevKey shares its first lcp bytes. (4) Index blocks: each iteration of Index.Encode appends exactly le16(len(StartKey)) StartKey le16(len(EndKey)) EndKey le64(Offset) le64(Length) after the two-field header. (5) 16-bit length fields: every narrowing conversion in Data.Encode and Index.Encode is an obligation; those for lengths >= 65536 fail and are listed known findings (D11, demonstrated in findings/table/zz_d11_test.go). (6) ErrorWriter.Write / ErrorReader.Read glue, utils.LCP (longest common prefix, for all strings).",
+         "NOT decided: the induction from 'record by record' to 'the whole block' (the chain over all entries is not restated as one quantified postcondition), Index.Decode (interior pointers passed through an interface: outside the modelled subset), the layout of a whole table file in table.Build beyond ownership, wal.Write/Read and the thrift record codec (trusted), s2 compression (utils.Compress/Decompress trusted as inverse functions). Data.Decode's slice-bound obligations are not claimed (thin contract): on bytes not produced by Data.Encode it can panic. 'Whatever other goroutines encode concurrently' is decided as ownership: the result is unreachable from the pool (sync.Pool trusted).", "4-C11"),
  "C07": ("Proof at the level of fingerprints: hasConflict returns true exactly when a remembered committed transaction with ts > readTs wrote a read fingerprint (nested-loop invariants); cleanUpCommittedTxns keeps exactly the entries above the new mark (in-place filter with aliasing slices); newCommitTs refuses exactly when the ghost commit history Hist contains such a transaction (oracle invariant orcInv/histInv: nothing above the clean-up mark is forgotten, the mark never exceeds an open reader); Get records a fingerprint only for store reads; Commit returns ErrConflictTxn iff that holds and then changes neither View nor Hist; read-only / write-only transactions cannot conflict (empty readsFp).",
          "sequential semantics of each critical section (oracle lock held); watermark client contracts trusted (justified by C13); utils.Hash as an uninterpreted deterministic function: the key-level statement equals the fingerprint-level one when no two keys in play collide; DB.search/rawset used through their contracts; fewer than 2^63 commits", "4-C07"),
  "C08": ("Proof: modify/Set/Delete return the documented error in exactly the documented cases and then change nothing; otherwise they only touch the private buffer (frame conditions proved: assigns map pendingWrites, map writesFp). Discard only sets flags and finishes the read mark. Commit on a discarded transaction returns ErrDiscardedTxn, on conflict ErrConflictTxn, in both cases with View and Hist unchanged. View/Update return ErrDBClosed when closed, Update returns the closure's error without calling Commit and with View unchanged.",
